@@ -683,27 +683,13 @@ Proof.
   { intros v S L. destruct (with_labels_same q v z L Wq S) as (A & B & C & _).
     pose proof (with_labels_units _ _ _ L) as U. unfold units_agree in U.
     rewrite U, A, B, C, (wf_units q Wq). auto. }
-  destruct H as [H|H]; unfold mul in H; rewrite ?Rr, ?Rq in H.
-  - destruct (mon r) eqn:Mr; simpl negb in H; cbv iota in H.
-    + inv_guard H. destruct (mon q) eqn:Mq.
-      * inv_guard H. simpl in H. apply vals_zip_shape in B1. fold (mon r) (mon q) in B1. rewrite Mr in B1.
-        eapply G; [|exact H]. now rewrite B1, Mq.
-      * simpl in H; discriminate H.
-    + destruct (mon q) eqn:Mq.
-      * inv_guard H. apply vals_zip_shape in B. fold (mon r) (mon q) in B. rewrite Mr, Mq in B.
-        eapply G; [|exact H]. now rewrite B, Mq.
-      * inv_guard H. simpl in H. apply vals_zip_shape in B. fold (mon r) (mon q) in B. rewrite Mr, Mq in B.
-        eapply G; [|exact H]. now rewrite B, Mq.
-  - destruct (mon q) eqn:Mq; simpl negb in H; cbv iota in H.
-    + inv_guard H. destruct (mon r) eqn:Mr.
-      * inv_guard H. simpl in H. apply vals_zip_shape in B1. fold (mon r) (mon q) in B1. rewrite Mq in B1.
-        eapply G; [|exact H]. now rewrite B1, Mq.
-      * inv_guard H. apply vals_zip_shape in B0. fold (mon r) (mon q) in B0. rewrite Mq in B0.
-        eapply G; [|exact H]. now rewrite B0, Mq.
-    + destruct (mon r) eqn:Mr.
-      * simpl in H; discriminate H.
-      * inv_guard H. simpl in H. apply vals_zip_shape in B. fold (mon r) (mon q) in B. rewrite Mr, Mq in B.
-        eapply G; [|exact H]. now rewrite B, Mq.
+  destruct H as [H|H]; unfold mul in H; rewrite ?Rr, ?Rq in H;
+  destruct (mon r) eqn:Mr; destruct (mon q) eqn:Mq; simpl negb in H; cbv beta iota zeta in H;
+  inv_guard H; cbv beta iota zeta in H; try discriminate H;
+  try (match goal with E : false = true |- _ => discriminate E end);
+  (match goal with Z : vals_zip _ _ _ = Ok ?v |- _ =>
+     apply vals_zip_shape in Z; fold (mon r) (mon q) in Z; rewrite Mr, Mq in Z;
+     eapply G; [|exact H]; rewrite Z; reflexivity end).
 Qed.
 
 (* ------------------------------------------------------------------ predicates: single value = one-month series *)
